@@ -210,7 +210,7 @@ fn de(data: &[u8], off: &mut usize) -> Result<Result<Vec<V>, String>, String> {
     vcore::catch(|| {
         let mut out = Default::default();
         match RowSerde::deserialize_row_into(data, off, &mut out) {
-            Ok(()) => Ok(out.into_iter().map(|v| match v { Value::Uuid(mut u) if u[0] == 0xFF => { u[3] ^= 1; Value::Uuid(u) } o => o }).collect::<Vec<V>>()), // PLANT
+            Ok(()) => Ok(out.into_iter().collect::<Vec<V>>()),
             Err(e) => Err(e.to_string()),
         }
     })
@@ -252,7 +252,7 @@ fn cmp_rows(oracle: &'static str, pre: &str, want: &[&V], got: &[V], out: &mut V
 }
 
 fn row_size(row: &[V]) -> usize {
-    RowSerde::row_size(row) + row.iter().filter(|v| matches!(v, Value::Vector(x) if x.len() == 1)).count() // PLANT
+    RowSerde::row_size(row)
 }
 
 /// size oracle for one row: row_size == bytes appended; blames the first value whose own size is off
